@@ -108,10 +108,32 @@ FloorCases ==
      accts |-> << Contract(C1, 0, Cat([i \in 1..k |-> <<95>> \o P(i - 1) \o <<85>>]) \o <<0>>, << <<0, 1>>, <<1, 2>>, <<2, 1>> >>), SenderAcct >>]
     : f \in Forks, k \in 0..3, n \in {0, 96, 192, 288, 384, 480, 576, 800}, nz \in {0, 96, 192, 288, 384, 480, 576, 800} }
 
-Cases == CASE Family = "floor" -> FloorCases [] Family = "auth" -> AuthCases [] Family = "blob" -> BlobCases [] Family = "sstore" -> SStoreCases [] Family = "seq" -> SeqCases [] Family = "call" -> CallCases [] OTHER -> TxCases
+(* --- family "create": a creation that fails (or succeeds with empty code) followed by an      *)
+(* access to the address it was aimed at: EIP-2929 makes that address warm from the CREATE on,  *)
+(* whatever the outcome.  The address is a hash: it is the token CT here, the replay driver     *)
+(* patches the 20 placeholder bytes after PUSH20 with the real address.                          *)
+CT == -5
+Inits == { <<95, 95, 253>>, <<254>>, <<0>>, P(1) \o <<95, 85, 95, 95, 253>> }
+Placeholder == <<115>> \o [i \in 1..20 |-> 170]
+Touches == { [pre |-> << >>, post |-> <<49, 80>>], [pre |-> << >>, post |-> <<59, 80>>], [pre |-> << >>, post |-> <<63, 80>>],
+             [pre |-> <<95, 95, 95, 95, 95>>, post |-> <<97, 195, 80, 241, 80>>] }
+Creator(init, c2, salt, t) ==
+  LET L == Len(init)
+      crt == IF c2 THEN P(salt) \o P(L) \o <<95, 95, 245>> ELSE P(L) \o <<95, 95, 240>>
+      rest == crt \o <<80>> \o t.pre \o Placeholder \o t.post \o <<0>>
+      off == 6 + Len(rest)
+  IN P(L) \o P(off) \o <<95, 57>> \o rest \o init
+CreateCases ==
+  { [tx |-> [BaseTx EXCEPT !.fork = f, !.gas = g],
+     accts |-> << Contract(C1, 3, Creator(init, c2, salt, t), StorOf(0)), SenderAcct >>,
+     init |-> init, c2 |-> c2, salt |-> salt]
+    : f \in Forks, g \in {300000, 90000}, init \in Inits, c2 \in BOOLEAN, salt \in {0, 2}, t \in Touches }
+
+Cases == CASE Family = "create" -> CreateCases [] Family = "floor" -> FloorCases [] Family = "auth" -> AuthCases [] Family = "blob" -> BlobCases [] Family = "sstore" -> SStoreCases [] Family = "seq" -> SeqCases [] Family = "call" -> CallCases [] OTHER -> TxCases
 
 MCInit == c \in Cases /\ m = TxStart(c.tx, c.accts)
-MCNext == Running(m) /\ m' = RunStep(m) /\ UNCHANGED c
+MCObs == IF Family = "create" THEN [NoObs EXCEPT !.top = CT, !.to = CT, !.code = c.init] ELSE NoObs
+MCNext == Running(m) /\ m' = RunStepObs(m, MCObs) /\ UNCHANGED c
 MCSpec == MCInit /\ [][MCNext]_<<m, c>>
 
 (* ------------------------------- sanity of the semantics ----------------------------------- *)
@@ -150,7 +172,8 @@ PostOf(w) == [i \in DOMAIN c.accts |->
                 LET a == c.accts[i].addr IN
                 [addr |-> a, bal |-> Bal(w, a), nonce |-> Acct(w, a).nonce, clen |-> Len(Acct(w, a).code),
                  stor |-> [s \in 1..3 |-> <<s - 1, SLoad(w, a, s - 1)>>]]]
-CaseOf == [tx |-> c.tx, accts |-> c.accts,
+Extra == IF Family = "create" THEN [init |-> c.init, c2 |-> c.c2, salt |-> c.salt] ELSE [init |-> << >>, c2 |-> FALSE, salt |-> 0]
+CaseOf == [tx |-> c.tx, accts |-> c.accts, extra |-> Extra,
            expect |-> [valid |-> m.ph = "end", ok |-> m.out.ok, gasUsed |-> m.out.gasUsed,
                        coinbase |-> Bal(m.w, Coinbase), post |-> PostOf(m.w), nlogs |-> Len(m.w.logs)]]
 Emit == Finished => PrintT(<<"CASE", ToJson(CaseOf)>>)
